@@ -27,7 +27,7 @@ git apply "$dst/patch.diff" || { echo "patch does not apply"; exit 2; }
 patched_rc=$(sh -c "$demo_cmd" >/dev/null 2>&1; echo $?)
 rm -f "$demo_dir"/zz_seed_*_test.go "$demo_dir"/demo_test.go
 rm -rf kvgraph/test/test.db.* 2>/dev/null
-base_out=$(VERIF_REPO="$wt" /verif/baseline.sh 2>&1 | tail -3)
+base_out=$(VERIF_REPO="$wt" flock /tmp/seed-baseline.lock /verif/baseline.sh 2>&1 | tail -3)
 base_rc=$?
 echo "$base_out" | grep -q "123/123" && base_ok=true || base_ok=false
 git checkout -q -- go.sum go.mod 2>/dev/null
